@@ -1,23 +1,76 @@
-use hydro_lang::prelude::*;
-use vf_hydro_sim2::slices;
+//! Engine F (part 2): C31, C34, C39, C40 — the repo's simulator as the controlled scheduler.
+//!
+//! C31/C34/C39: `CompiledSim::exhaustive` (the repo's own exhaustive decision enumeration) over
+//! enumerated inputs; every execution's observations are recorded by the test body and judged by
+//! an oracle outside the simulator. C40: hook H3 (`verif_run_with_driver`) with a recording driver
+//! and the deviation-bounded explorer.
+mod c31;
+mod c34;
+mod c39;
+mod c40;
+mod driver;
+
+use std::sync::Mutex;
+
+use hydro_lang::sim::compiled::CompiledSim;
+use vf_explore::{Report, cli, quiet_panics};
+
+/// Shared recorder filled by test bodies (RefUnwindSafe, unlike `RefCell`).
+pub struct Rec<T>(pub Mutex<Vec<T>>);
+impl<T> Rec<T> {
+    pub fn new() -> Self {
+        Rec(Mutex::new(Vec::new()))
+    }
+    pub fn push(&self, t: T) {
+        self.0.lock().unwrap_or_else(|e| e.into_inner()).push(t);
+    }
+    pub fn take(&self) -> Vec<T> {
+        std::mem::take(&mut *self.0.lock().unwrap_or_else(|e| e.into_inner()))
+    }
+}
+
+/// Runs the repo's exhaustive search; a panic escaping it (assertion inside the simulator, the
+/// program, or a receive that found the stream ended) is returned as `Err(message)`.
+pub fn exhaustive(
+    sim: &CompiledSim,
+    body: impl AsyncFnMut() + std::panic::RefUnwindSafe,
+) -> Result<usize, String> {
+    vf_explore::catch(|| sim.exhaustive(body))
+}
+
+pub fn machinery(msg: &str) -> ! {
+    println!("MACHINERY-ERROR: {msg}");
+    std::process::exit(2);
+}
 
 fn main() {
-    let t0 = std::time::Instant::now();
-    let mut flow = FlowBuilder::new();
-    let node = flow.process::<slices::Node>();
-    let (tx, input) = node.sim_input();
-    let rx = slices::batch_snapshot_state(input).sim_output();
-    let outs = std::sync::Mutex::new(std::collections::BTreeSet::new());
-    let n = flow.sim().exhaustive(async || {
-        tx.send(1);
-        tx.send(2);
-        tx.send(3);
-        let all: Vec<(Vec<u32>, usize, usize, usize)> = rx.collect().await;
-        outs.lock().unwrap().insert(all);
-    });
-    let outs = outs.into_inner().unwrap();
-    println!("{n} instances, {} outs, {:?}", outs.len(), t0.elapsed());
-    for o in outs.iter().take(10) {
-        println!("{o:?}");
+    let cli = cli();
+    quiet_panics();
+    // The simulator build looks for the crate through CARGO_MANIFEST_DIR or the working directory.
+    if std::env::var_os("CARGO_MANIFEST_DIR").is_none() {
+        // SAFETY: single-threaded at this point.
+        unsafe { std::env::set_var("CARGO_MANIFEST_DIR", env!("CARGO_MANIFEST_DIR")) };
     }
+    if std::env::var_os("RUSTFLAGS").is_some() {
+        machinery("RUSTFLAGS is set; hydro_lang's simulator build would switch strategy");
+    }
+    if let Ok(w) = std::env::var("VF_SIM2_WORKER") {
+        c40::worker(&w);
+        return;
+    }
+    let mut rep = Report::new(&cli.property, &cli.tier, "vf_hydro_sim2");
+    let thorough = rep.thorough();
+    let replay = cli.replay.as_ref().map(|p| {
+        let txt = std::fs::read_to_string(p).unwrap_or_else(|e| machinery(&format!("cannot read replay {p}: {e}")));
+        let v: vf_explore::Value = vf_explore::serde_json::from_str(&txt).unwrap_or_else(|e| machinery(&format!("bad replay json: {e}")));
+        v["case"].clone()
+    });
+    match cli.property.as_str() {
+        "C31" => c31::run(&mut rep, thorough, replay),
+        "C34" => c34::run(&mut rep, thorough, replay),
+        "C39" => c39::run(&mut rep, thorough, replay),
+        "C40" => c40::run(&mut rep, thorough, replay),
+        other => machinery(&format!("vf_hydro_sim2 does not serve property {other}")),
+    }
+    rep.finish();
 }
